@@ -185,8 +185,15 @@ func (p prog) code() []byte {
 		c = append(c, byte(0x50+p.n), common.CROSSCHAIN)
 		return c
 	case "S":
-		x, y := crypto.Curve.ScalarBaseMult(big.NewInt(int64(p.sKey)).Bytes())
-		c, err := contract.CreateSchnorrRedeemScript(&crypto.PublicKey{X: x, Y: y})
+		x, y := new(big.Int), new(big.Int) // key 0 = the empty aggregate, encoded and decoded as the code does
+		if p.sKey > 0 {
+			x, y = crypto.Curve.ScalarBaseMult(big.NewInt(int64(p.sKey)).Bytes())
+		}
+		pk, derr := crypto.DecodePoint(crypto.Marshal(crypto.Curve, x, y))
+		if derr != nil {
+			panic("harness: decode aggregate: " + derr.Error())
+		}
+		c, err := contract.CreateSchnorrRedeemScript(pk)
 		if err != nil {
 			panic("harness: schnorr script: " + err.Error())
 		}
@@ -447,6 +454,24 @@ func oracle(t []string, out string) *hx.Violation {
 				}
 				if n != len(p.keys) {
 					return bad("withdraw-v01-quorum", "script key count differs from the arbiter count")
+				}
+				// the required number of signatures for the height
+				if w.pver == 1 || c.height >= c.cfg[1] {
+					src, min := c.arbs.crc, c.cfg[6]
+					if c.height >= c.cfg[2] {
+						src, min = c.arbs.arbs, c.cfg[5]+1
+					}
+					cnt := 0
+					for _, a := range src {
+						if a.normal {
+							cnt++
+						}
+					}
+					if p.n != cnt || p.m < min {
+						return bad("withdraw-v01-quorum", fmt.Sprintf("script asks for %d of %d signatures, the height requires at least %d of %d", p.m, p.n, min, cnt))
+					}
+				} else if p.m < 1 || p.m > p.n || p.n != c.arbs.cc || p.m <= c.arbs.maj {
+					return bad("withdraw-v01-quorum", fmt.Sprintf("script asks for %d of %d signatures, majority is %d of %d", p.m, p.n, c.arbs.maj, c.arbs.cc))
 				}
 			}
 		}
